@@ -83,7 +83,7 @@ class Labels(Machine):
                        "remove_label_legal", "remove_label_illegal", "chained_selection", "non_ascii_label",
                        "labeller_array", "labeller_pointcloud", "labeller_labelled_graph", "labeller_wrong_size",
                        "labeller_via_manager", "labeller_3d", "labeller_commutes_checked",
-                       "caller_reuses_constructor_buffers") + tuple("ran_" + n for n in LABELLERS)
+                       "caller_reuses_constructor_buffers", "with_labels_in_other_order") + tuple("ran_" + n for n in LABELLERS)
 
     @classmethod
     def swarm(cls, rng, tier):
@@ -259,6 +259,13 @@ class Labels(Machine):
     def _op_with(self, op, G, m):
         L = self._subset(m, op["bits"], True)
         arg = L[0] if len(L) == 1 and op["seed"] & 1 else list(L)
+        permuted = False
+        if len(L) >= 2 and op["seed"] % 4 == 2:
+            # the labels requested in another order than they are stored in: the order of the result is left open by
+            # the statement and is not judged, but every label must still carry ITS OWN points
+            arg = list(reversed(L)) if op["seed"] % 8 == 2 else [L[-1]] + L[:-1]
+            permuted = True
+            self.ctx.probe("with_labels_in_other_order")
         try:
             R = G.with_labels(arg)
         except Exception as ex:
@@ -268,7 +275,9 @@ class Labels(Machine):
         if G is not self.pool[0][0] or len(self.pool) > 1:
             self.ctx.probe("chained_selection")
         em = m.select(set(L))
-        if self._compare(R, em, "with_labels"):
+        if permuted:
+            self._compare(R, em, "with_labels_permuted", strict_order=False)
+        elif self._compare(R, em, "with_labels"):
             self._put(R, em, op["dst"])
 
     def _op_without(self, op, G, m):
